@@ -26,13 +26,15 @@ def gen_file(rng, nlines, *, bad_rate=0.0, bad_at=(), nfeat=3, card=(2, 5, 9)):
                 lines.append(','.join([str(p)] + feats + [str(lab)]) + '\n')
             kinds.append('good')
         else:
-            k = rng.randrange(5 if nfeat >= 2 else 4)
+            k = rng.randrange(6 if nfeat >= 2 else 4)
             if k == 0:
                 lines.append(','.join([str(p)] + feats[:-1]) + '\n')            # too few fields
             elif k == 1:
                 lines.append(','.join([str(p)] + feats + [str(lab), 'extra']) + '\n')   # too many
             elif k == 2:
                 lines.append('\n')                                               # empty line
+            elif k == 5:
+                lines.append(','.join([str(p)] + feats + [str(lab), '']) + '\n')        # one field too many, the extra one empty
             elif k == 4:
                 # too few fields, but as many raw delimiters as a well-formed row (a quoted cell holds one)
                 lines.append(','.join([str(p), f'"{feats[0]},{feats[1]}"'] + feats[2:] + [str(lab)]) + '\n')
@@ -49,13 +51,15 @@ def strip_annotation(name):
     return _ANN.sub('', name)
 
 
-def to_trace(events, final=None, written=None, kinds=None):
+def to_trace(events, final=None, written=None, kinds=None, header_id=None):
     """kinds: the generated file's own knowledge of each data line ('good' = as many CSV fields as the header): carried in
     the parse events as wf = 1 / 0 (-1 = unknown) so that TraceStreaming judges the parser's verdict too."""
     out = []
     for e in events:
         if e['e'] == 'parse':
             pid = e.get('id')
+            if header_id is not None and pid == header_id:
+                continue          # the header line handed to the parser (a probe, or - if it is consumed as data - visible in the batch ids)
             pos = int(pid) if isinstance(pid, str) and pid.isdigit() else -1
             wf = -1 if kinds is None or not (1 <= pos <= len(kinds)) else (1 if kinds[pos - 1] == 'good' else 0)
             out.append({'e': 'parse', 'nf': e['nf'], 'pos': pos, 'wf': wf})
